@@ -183,10 +183,7 @@ Theorem C09_registry_frame :
   forall (reg : registry) (ty ty' : string) (r : resolver), ty' <> ty ->
   lookup_resolver (reg_register reg ty r) ty' = lookup_resolver reg ty' /\
   lookup_resolver (reg_delete reg ty) ty' = lookup_resolver reg ty'.
-Proof.
-  exact (fun reg ty ty' r H =>
-           conj (lookup_register_other reg ty ty' r H) (lookup_delete_other reg ty ty' H)).
-Qed.
+Proof. exact registry_frame. Qed.
 Print Assumptions C09_registry_frame.
 
 (* options: no option = the default registry; the last registry option wins unless an
@@ -197,11 +194,7 @@ Theorem C09_registry_options :
   validate_credential_status poseidon q dflt [] cs = validate_status poseidon q dflt cs /\
   validate_credential_status poseidon q dflt (opts ++ [OptRegistry (Some reg)]) cs =
     (if existsb opt_is_fail opts then Err EOption else validate_status poseidon q reg cs).
-Proof.
-  exact (fun P q dflt opts reg cs =>
-           conj (validate_credential_status_default P q dflt cs)
-                (validate_credential_status_with P q dflt opts reg cs)).
-Qed.
+Proof. exact options_spec. Qed.
 Print Assumptions C09_registry_options.
 
 (* coerceCredentialStatus accepts exactly the three Go shapes: *CredentialStatus,
@@ -225,6 +218,30 @@ Theorem C09_http :
     h = HResp code len true (Some a) true /\ 200 <= code < 300 /\ len < 16384.
 Proof. exact http_answer_iff. Qed.
 Print Assumptions C09_http.
+
+(* never a panic, and nothing but an answer or an error *)
+Theorem C09_http_total :
+  forall h : http_result,
+  (exists a, http_resolve h = Ok a) \/ (exists t, http_resolve h = Err t).
+Proof. exact http_total. Qed.
+Print Assumptions C09_http_total.
+
+(* the direct resolver inside ValidateCredentialStatus (IssuerResolver registered for the
+   credential's status type; `h` is what the transport did) *)
+Theorem C09_direct :
+  forall (poseidon : list Z -> Z) (q : Z), 0 < q <= 2 ^ 256 ->
+  forall (reg : registry) (cs : cred_status) (h : http_result) (a : answer),
+  0 <= cs_nonce cs < q ->
+  lookup_resolver reg (cs_type cs) = Some (http_resolver h) ->
+  (validate_status poseidon q reg cs = Ok a <->
+   (exists code len, h = HResp code len true (Some a) true /\
+                     200 <= code < 300 /\ len < 16384) /\
+   (tree_state_ok poseidon q (a_issuer a) /\
+    exists rr, root_value (ts_rtr (a_issuer a)) = Some rr /\
+               proof_verifies poseidon q (a_mtp a) rr (cs_nonce cs) 0) /\
+   r_ex (a_mtp a) = false).
+Proof. exact direct_ok. Qed.
+Print Assumptions C09_direct.
 
 Theorem C09_http_boundary :
   forall a : answer,
